@@ -68,7 +68,8 @@ type fnSpec struct {
 // a package-level map variable kept in the world
 type global struct {
 	lookup, insert string // lookup w k : (V' * bool), insert w k v : world
-	key, val       string // Go types
+	key, val       string // Go types of the key and of what a lookup yields
+	ins            string // Go type of what may be stored
 }
 
 // x.(T) with a run-time answer: coq x : (T' * bool)
@@ -167,14 +168,31 @@ func init() {
 			{file: "restclient.shootnew.restconf.go", name: "DefaultHeaders"},
 			{file: "restclient.go", name: "Use"},
 			{file: "restclient.go", name: "RestConf.BuildMiddleware"},
+			{file: "constructor.go", name: "NewWith", inst: map[string]string{"T": "RestConf", "PT": "*RestConf"}},
+			{file: "restclient.go", name: "Register", inst: map[string]string{"T": "T"}, ids: []string{"T"}},
+			{file: "restclient.go", name: "NewRest", inst: map[string]string{"T": "T"}, ids: []string{"T"}},
 		},
 		types: map[string]string{
 			"int": "Z", "bool": "bool", "string": "string", "time.Duration": "Z",
 			"*RestConf": "(RestRuntime.conf M)", "map[string]string": "RestRuntime.headers",
 			"middleware.Middleware": "M", "[]middleware.Middleware": "(list M)",
 			"http.RoundTripper": "RestRuntime.rt",
+			"RestConf": "(RestRuntime.conf M)", "reflect.Type": "nat", "T": "Client",
+			"any": "(option (RestRuntime.ctor M Client))", "func(RestConf) T": "(RestRuntime.ctor M Client)",
+			"func(RestConf) T|nil": "(option (RestRuntime.ctor M Client))",
+			"Option[RestConf, *RestConf]":   "(RestRuntime.conf M -> RestRuntime.conf M)",
+			"[]Option[RestConf, *RestConf]": "(list (RestRuntime.conf M -> RestRuntime.conf M))",
 		},
 		ptrs: map[string]bool{},
+		globals: map[string]global{
+			"ctorRegistry": {lookup: "RestPrims.reg_lookup M Client", insert: "RestPrims.reg_insert M Client",
+				key: "reflect.Type", val: "any", ins: "func(RestConf) T"},
+		},
+		asserts: map[string]assertion{
+			"any.(func(RestConf) T)": {coq: "RestPrims.assert_ctor M Client", result: "func(RestConf) T|nil"},
+		},
+		news:   map[string]string{"RestConf": "(@RestRuntime.conf0 M)"},
+		panicf: "PErrorf",
 		records: map[string]map[string]recField{
 			"*RestConf": {
 				"baseURL":        setter("base", "string"),
@@ -185,13 +203,16 @@ func init() {
 			},
 		},
 		callables: map[string]callable{
-			"middleware.Middleware": {coq: "RestPrims.apply_mw M interp", result: "http.RoundTripper"},
+			"middleware.Middleware":       {coq: "RestPrims.apply_mw M interp", result: "http.RoundTripper"},
+			"Option[RestConf, *RestConf]": {coq: "RestPrims.apply_opt M", mutate: true},
+			"func(RestConf) T|nil":        {coq: "RestPrims.apply_ctor M Client", result: "T", nilable: true},
 		},
 		values: map[string]field{
 			"http.DefaultTransport": {"base", "http.RoundTripper"},
 		},
 		prims: map[string]prim{
 			"middleware.LoggingMiddleware": {coq: "RestRuntime.log_mw", args: []int{0}, results: []string{"http.RoundTripper"}},
+			"reflect.Type.Elem":            {recv: true, coq: "RestPrims.type_elem", results: []string{"reflect.Type"}},
 		},
 		nilPan: "PNilDeref",
 	}
@@ -1003,6 +1024,13 @@ func assigned(stmts []ast.Stmt, ev *env) []*variable {
 			if id, ok := s.X.(*ast.Ident); ok {
 				set[id.Name] = true
 			}
+		case *ast.ExprStmt:
+			// f(x): a function value may write through x
+			if c, ok := s.X.(*ast.CallExpr); ok && len(c.Args) == 1 {
+				if id, isId := c.Args[0].(*ast.Ident); isId {
+					set[id.Name] = true
+				}
+			}
 		case *ast.FuncLit:
 			return false
 		}
@@ -1354,7 +1382,10 @@ func (t *translator) assign(x *ast.AssignStmt, ev *env, cont func(*env) string) 
 			if t.mayPanic(ix.Index, ev) || t.mayPanic(x.Rhs[0], ev) {
 				unsup(x, "map assignment whose key or value can panic")
 			}
-			return "(let w := " + g.insert + " w " + t.pure(ix.Index, ev, g.key) + " " + t.pure(x.Rhs[0], ev, g.val) + " in\n" + cont(ev) + ")"
+			if vt := t.typeOf(x.Rhs[0], ev); vt != g.ins {
+				unsup(x, "storing a %s in %s", vt, gid.Name)
+			}
+			return "(let w := " + g.insert + " w " + t.pure(ix.Index, ev, g.key) + " " + t.pure(x.Rhs[0], ev, g.ins) + " in\n" + cont(ev) + ")"
 		}
 	}
 	reuse := map[string]bool{}
@@ -1454,7 +1485,8 @@ func (t *translator) assign(x *ast.AssignStmt, ev *env, cont func(*env) string) 
 	if len(x.Rhs) == 1 {
 		if c, ok := x.Rhs[0].(*ast.CallExpr); ok {
 			_, isCallable := t.callableOf(c, ev)
-			if id, isId := c.Fun.(*ast.Ident); !(isId && (id.Name == "len" || id.Name == "append")) && !isCallable {
+			_, isTypeId := t.typeIdOf(c)
+			if id, isId := c.Fun.(*ast.Ident); !(isId && (id.Name == "len" || id.Name == "append" || id.Name == "new" || id.Name == "any")) && !isCallable && !isTypeId {
 				p, key := t.primOf(c, ev)
 				if len(p.results) != len(lhs) {
 					unsup(x, "%s returns %d values, %d expected", key, len(p.results), len(lhs))
@@ -2062,6 +2094,12 @@ func (t *translator) function(fd *ast.FuncDecl, spec fnSpec) {
 			case *ast.IncDecStmt:
 				if id, isId := a.X.(*ast.Ident); isId {
 					t.reassigned[id.Name] = true
+				}
+			case *ast.ExprStmt:
+				if c, isCall := a.X.(*ast.CallExpr); isCall && len(c.Args) == 1 {
+					if id, isId := c.Args[0].(*ast.Ident); isId {
+						t.reassigned[id.Name] = true
+					}
 				}
 			}
 			return true
